@@ -1,6 +1,7 @@
 import SeqIoModel.Proofs.Fill
 import SeqIoModel.Proofs.FastaStreamGrowth
 import SeqIoModel.Proofs.FastqGrowth
+import SeqIoModel.Proofs.FastaSetGrowth
 /-!
 # C09 – the buffer grows only as the policy directs and only when a record does not fit
 
@@ -113,5 +114,32 @@ theorem fastq_fitting_input_never_grows (inp : List UInt8) (cap : Nat) (hcap : 3
     (Fastq.nextN k (Fastq.mkReader inp cap pol script chunk)).log = [] ∧
       (Fastq.nextN k (Fastq.mkReader inp cap pol script chunk)).br.cap = cap :=
   Fastq.fitting_never_grows inp cap hcap pol hwf script hs chunk hfit k
+
+/-- FASTA record-set reads (plain and exact-count) from any state a history can reach (`HInv`): the
+requests form a chain, buffer-limit iff the last request was refused, and for PLAIN set reads every
+request is made while the first record of the batch does not fit -/
+theorem fasta_set_read_growth {inp : List UInt8} {m : Fasta.Hist.MSt} {a : Fasta.Hist.AState}
+    (h : Fasta.Hist.HInv inp m a) (rs : Fasta.RecordSet) (n : Option Nat) :
+    ∃ new, (Fasta.readRecordSetExact (Fasta.Hist.fuelOf m.r) m.r rs n).1.log = m.r.log ++ new ∧
+      Fasta.LogChain m.r.br.cap new (Fasta.readRecordSetExact (Fasta.Hist.fuelOf m.r) m.r rs n).1.br.cap ∧
+      (Fasta.readRecordSetExact (Fasta.Hist.fuelOf m.r) m.r rs n).1.pol.f = m.r.pol.f ∧
+      ((Fasta.readRecordSetExact (Fasta.Hist.fuelOf m.r) m.r rs n).2.2 = .err .bufferLimit ↔
+        ∃ pre c, new = pre ++ [(c, none)]) ∧
+      (n = none → new = [] ∨ ∃ rc, (Fasta.Hist.recsOf inp)[a.k]? = some rc ∧ Fasta.RecStart inp rc.byte ∧
+        ∀ e ∈ new, e.1 < Fasta.recExtent inp rc.byte + 1) :=
+  Fasta.Hist.set_growth_log h rs n
+
+/-- input whose records all fit never causes growth under ANY history of single reads, owned reads,
+plain record-set reads, set iteration and position queries – and such a history is then accepted by
+the abstract reader even with a policy that would refuse -/
+theorem fasta_fitting_never_grows_any_history (inp : List UInt8) (cap : Nat) (hcap : 3 ≤ cap) (pol : Pol)
+    (hpol : Fasta.PolWfPos pol) (script : List ReadEv) (hs : NoFail script) (chunk : Nat)
+    (ops : List Fasta.Hist.Op) (hplain : ∀ op ∈ ops, Fasta.Hist.PlainOp op) (hfit : Fasta.Fits inp cap) :
+    ((Fasta.Hist.finalM (Fasta.Hist.mkMSt inp cap pol script chunk) ops).r.log = [] ∧
+      (Fasta.Hist.finalM (Fasta.Hist.mkMSt inp cap pol script chunk) ops).r.br.cap = cap) ∧
+    Fasta.Hist.runA (Fasta.Hist.items inp) Fasta.Hist.aInit ops
+      (Fasta.Hist.runM (Fasta.Hist.mkMSt inp cap pol script chunk) ops) = true :=
+  ⟨Fasta.Hist.fitting_never_grows_history inp cap hcap pol hpol script hs chunk ops hplain hfit,
+   Fasta.Hist.fitting_history_accepted inp cap hcap pol hpol script hs chunk ops hplain hfit⟩
 
 end SeqIo.Thm.C09
